@@ -205,7 +205,27 @@ pub fn gen_dict(rng: &mut Rng, o: &GenOpts) -> GenDict {
     let sys = gen_rows(rng, nsys, "S");
     let user = if rng.below(100) < o.with_user {
         let n = if rng.chance(1, 30) { 0 } else { 1 + rng.below(5) as usize };
-        Some(gen_rows(rng, n, "W"))
+        let mut u = gen_rows(rng, n, "W");
+        for r in u.iter_mut() {
+            // homographs of system words, and longer / shorter overlapping surfaces
+            if !sys.is_empty() && rng.chance(1, 3) {
+                let base: Vec<char> = rng.pick(&sys).surface.chars().collect();
+                r.surface = match rng.below(3) {
+                    0 => base.iter().collect(),
+                    1 => base.iter().chain(std::iter::once(rng.pick(ALPHABET))).collect(),
+                    _ => base[..(base.len() + 1) / 2].iter().collect(),
+                };
+            }
+            // occasionally a connection id outside the connector (must be rejected)
+            if rng.chance(1, 25) {
+                if rng.chance(1, 2) {
+                    r.lid = (nleft + rng.below(2) as usize) as u16;
+                } else {
+                    r.rid = (nright + rng.below(2) as usize) as u16;
+                }
+            }
+        }
+        Some(u)
     } else {
         None
     };
